@@ -20,6 +20,10 @@ Huge == {<<"huge", "h8">>, <<"h8", "huge", "e9">>, <<"max", "h8">>}
 HugeCuts == UNION {Near(Ends(s, Len(s))) : s \in Huge} \cup Near({32767, 32768, 40000})
 \* controller: 2048-byte reads; allow only a couple of early cut points, the rest are full-size reads
 HugeCutsC == {7, 8, 9, 17}
+\* many short messages in one read (a reader may not stop after some number of messages: nothing tells it to look
+\* at the buffer again until more bytes arrive)
+Many == {[i \in 1..130 |-> "h8"], [i \in 1..300 |-> IF i % 3 = 0 THEN "e9" ELSE "h8"], [i \in 1..520 |-> "h8"]}
+ManyCuts == {1, 8, 1023, 1040, 2047, 2048, 2049, 4100}
 NoCuts == {}
 NoFail == {{}}
 SomeFail == {{}, {1}, {2}, {1, 2}, {1, 3}}
